@@ -123,7 +123,12 @@ HalfLoaded == IF ~IsTA THEN (pol' # <<>> /\ Cardinality(SetOf(pol'.free)) <= 1) 
         demand == MapThenSumSet(LAMBDA c : ctrs'[c].cpureq, L)
         cap    == 1000 * Cardinality(SetOf(pol'.allowed) \ (SetOf(pol'.reserved) \cup SetOf(pol'.isolated)))
     IN 2 * demand > cap
-Excused2 == (excused \cap Grantless) \cup (IF E.ev \in {"Sync", "Reconfigure", "Restart"} /\ HalfLoaded THEN Grantless ELSE {})
+\* ... and a container that needs more whole CPUs than are idle after the bulk re-allocation cannot be placed either
+\* (e.g. an accepted configuration that shrinks the available CPUs below what the running containers ask for)
+TooBigForIdle == IF IsTA \/ pol' = <<>> THEN {}
+                 ELSE {c \in Grantless : (ctrs'[c].cpureq + 999) \div 1000 > Cardinality(SetOf(pol'.free) \ SetOf(pol'.reserved))}
+Excused2 == (excused \cap Grantless)
+            \cup (IF E.ev \in {"Sync", "Reconfigure", "Restart"} THEN (IF HalfLoaded THEN Grantless ELSE TooBigForIdle) ELSE {})
 
 \* -- C01 / C03 (topology-aware) --
 TAState ==
@@ -159,7 +164,13 @@ TAState ==
 \* -- C04: memory pinning follows the allocator; no node set oversubscribed --
 MemZone(m) == [c \in DOMAIN m.zone |-> SetOf(m.zone[c])]
 MemReq(m)  == [c \in DOMAIN m.size |-> [size |-> m.size[c]]]
-PinMemOf(c) == world'.pinmemory /\ ~ctrs'[c].pmem /\ (IsTA \/ BalloonPinsMemory(pol', c))
+\* does the CONFIGURATION in force pin the memory of container c?  balloons: the type-level switch, where the
+\* configuration gives one, overrides the policy-level switch
+DefsOfCtr(c)  == IF IsTA \/ pol' = <<>> THEN {} ELSE {b.def : b \in BalloonsOf(pol', c)}
+PinsMemCfg(c) == IF DefsOfCtr(c) \cap world'.typenopin # {} THEN FALSE
+                 ELSE IF DefsOfCtr(c) # {} /\ DefsOfCtr(c) \subseteq world'.typedopin THEN TRUE
+                 ELSE world'.pinmemory
+PinMemOf(c) == PinsMemCfg(c) /\ ~ctrs'[c].pmem /\ (IsTA \/ BalloonPinsMemory(pol', c))
 C04State ==
     LET Z == MemZone(mem')
         holders == {c \in DOMAIN Z \cap DOMAIN ctrs' : ctrs'[c].st \in {"created", "running"} /\ PinMemOf(c)}
@@ -190,8 +201,7 @@ C09State ==
 C12Step ==
     LET all == E.upd \o (IF E.pushed = <<>> THEN <<>> ELSE ApplyConcat(E.pushed))
         cpuOut(c) == c \in DOMAIN ctrs' /\ (ctrs'[c].pcpu \/ ~world'.pincpu)
-        memOut(c) == c \in DOMAIN ctrs' /\ (ctrs'[c].pmem \/ ~world'.pinmemory \/ (~IsTA /\ ~BalloonPinsMemory(pol', c))
-                                            \/ (~IsTA /\ pol' # <<>> /\ \E b \in BalloonsOf(pol', c) : b.def \in world'.typenopin))
+        memOut(c) == c \in DOMAIN ctrs' /\ (ctrs'[c].pmem \/ ~PinsMemCfg(c))
         told == [i \in DOMAIN all |-> all[i]]
         adjc == IF E.ev = "Create" /\ Ok THEN <<[c |-> E.c, r |-> E.adj]>> ELSE <<>>
         every == adjc \o all
@@ -354,13 +364,15 @@ NewViols == {V(pw[1], SigOf(pw), pw[2]) : pw \in StateViols \ broken}
 \* balloon types for which the CONFIGURATION switches memory pinning off (the policy's own view of its types, logged
 \* in the snapshot, is what is being checked, not the reference)
 TypeNoPin(cfg) == {t.name : t \in {t \in SetOf(Get(cfg, "balloonTypes", <<>>)) : Has(t, "pinMemory") /\ ~t.pinMemory}}
+\* ... and those for which it switches it ON explicitly (the type-level switch overrides the policy-level one)
+TypeDoPin(cfg) == {t.name : t \in {t \in SetOf(Get(cfg, "balloonTypes", <<>>)) : Has(t, "pinMemory") /\ t.pinMemory}}
 WorldOf(e) ==
     LET cfg == e.world.config
     IN [policy |-> e.world.policy,
         pincpu |-> Get(cfg, "pinCPU", TRUE), pinmemory |-> Get(cfg, "pinMemory", TRUE),
-        prefershared |-> Get(cfg, "preferSharedCPUs", FALSE), typenopin |-> TypeNoPin(cfg)]
+        prefershared |-> Get(cfg, "preferSharedCPUs", FALSE), typenopin |-> TypeNoPin(cfg), typedopin |-> TypeDoPin(cfg)]
 CfgWorld(w, cfg) == [w EXCEPT !.pincpu = Get(cfg, "pinCPU", TRUE), !.pinmemory = Get(cfg, "pinMemory", TRUE),
-                              !.prefershared = Get(cfg, "preferSharedCPUs", FALSE), !.typenopin = TypeNoPin(cfg)]
+                              !.prefershared = Get(cfg, "preferSharedCPUs", FALSE), !.typenopin = TypeNoPin(cfg), !.typedopin = TypeDoPin(cfg)]
 
 LayoutOf(nodes) ==
     LET ns == SetOf(nodes) IN
@@ -372,7 +384,7 @@ LayoutOf(nodes) ==
 TrReset ==
     /\ E.ev = "reset"
     /\ IF Has(E, "booterr")
-       THEN /\ world' = [policy |-> "none", pincpu |-> TRUE, pinmemory |-> TRUE, prefershared |-> FALSE, typenopin |-> {}]
+       THEN /\ world' = [policy |-> "none", pincpu |-> TRUE, pinmemory |-> TRUE, prefershared |-> FALSE, typenopin |-> {}, typedopin |-> {}]
             /\ pol' = <<>> /\ mem' = [zone |-> <<>>, size |-> <<>>] /\ lay' = [nodes |-> {}, type |-> <<>>, cap |-> <<>>, normal |-> {}]
             /\ pristine' = <<>> /\ pristine0' = <<>>
        ELSE /\ world' = WorldOf(E) /\ pol' = E.st.pol /\ mem' = E.st.mem /\ lay' = LayoutOf(E.memnodes) /\ pristine' = E.st.pol
@@ -449,7 +461,7 @@ Finish ==
 
 TraceInit ==
     /\ l = 1 /\ viols = <<>> /\ done = FALSE
-    /\ world = [policy |-> "none", pincpu |-> TRUE, pinmemory |-> TRUE, prefershared |-> FALSE, typenopin |-> {}]
+    /\ world = [policy |-> "none", pincpu |-> TRUE, pinmemory |-> TRUE, prefershared |-> FALSE, typenopin |-> {}, typedopin |-> {}]
     /\ pol = <<>> /\ mem = [zone |-> <<>>, size |-> <<>>] /\ lay = [nodes |-> {}, type |-> <<>>, cap |-> <<>>, normal |-> {}]
     /\ pristine = <<>> /\ pristine0 = <<>> /\ taint = {} /\ stopped = {} /\ broken = {} /\ mems0 = <<>> /\ excused = {} /\ topo = {}
     /\ pods = {} /\ ctrs = <<>> /\ req = <<>> /\ pend = {} /\ rt = <<>> /\ rtlive = {} /\ residue = {} /\ evpend = {}
